@@ -212,7 +212,7 @@ var propertyEntries = map[string][]string{
 	"C03": {"pkg/cafs.defaultFs.Get", "pkg/cafs.defaultFs.GetAt", "pkg/cafs.chunkReader.", "pkg/core.Publish", "pkg/core.PublishFile", "pkg/core.PublishSelectBundleEntries", "pkg/core.Update"},
 	"C04": {"pkg/core.Upload", "pkg/core.UploadSpecificKeys", "pkg/core.Publish", "pkg/core.PublishSelectBundleEntries", "pkg/core.PublishFile", "pkg/core.PublishMetadata", "pkg/core.DownloadMetadata"},
 	"C05": {"pkg/core.Diff", "pkg/core.Update", "pkg/core.Publish", "pkg/core.Upload"},
-	"C06": {"pkg/core.Upload", "pkg/core.UploadSpecificKeys", "pkg/core.ListBundles", "pkg/core.ListBundlesApply", "pkg/core.GetLatestBundle", "pkg/core.Publish", "pkg/core.Diamond.Commit", "pkg/core.GetBundleTimeStamp", "pkg/core.Bundle.UploadBundleEntries"},
+	"C06": {"pkg/core.Upload", "pkg/core.UploadSpecificKeys", "pkg/core.ListBundles", "pkg/core.ListBundlesApply", "pkg/core.GetLatestBundle", "pkg/core.Publish", "pkg/core.Diamond.Commit", "pkg/core.GetBundleTimeStamp", "pkg/core.Bundle.UploadBundleEntries", "pkg/fuse.fsMutable.commitImpl", "pkg/fuse.fsMutable.Commit"},
 	"C07": {"pkg/core.ListRepos", "pkg/core.ListReposApply", "pkg/core.ListBundles", "pkg/core.ListBundlesApply", "pkg/core.ListLabels", "pkg/core.ListLabelsApply", "pkg/core.ListDiamonds", "pkg/core.ListDiamondsApply", "pkg/core.ListSplits", "pkg/core.ListSplitsApply"},
 	"C08": {"pkg/core.Label.", "pkg/core.ListLabels", "pkg/core.ListLabelsApply", "pkg/core.DeleteLabel", "pkg/core.DeleteRepo", "pkg/core.RepoSquash", "pkg/core.GetLabelStore", "pkg/model.NewLabelDescriptor", "pkg/model.LabelName", "pkg/core.NewLabel"},
 	"C09": {"pkg/core.CreateRepo", "pkg/core.DeleteRepo", "pkg/core.RenameRepo", "pkg/core.DeleteEntriesFromRepo", "pkg/core.GetRepo", "pkg/core.ListRepos", "pkg/core.RepoExists"},
@@ -337,6 +337,11 @@ var sharedPool = []sharedRule{
 	{"leaf-pool-per-fs", func(c *Ctx, r string) { checkLeafPoolPerFs(c, r) }},
 	{"populate-txns-once", func(c *Ctx, r string) { checkPopulateTxnsOnce(c, r) }},
 	{"single-file-name-as-given", func(c *Ctx, r string) { checkSingleFileNameAsGiven(c, r) }},
+	{"no-prefix-deletes", func(c *Ctx, r string) { checkNoPrefixDeletes(c, r) }},
+	{"mount-keeps-bundle-id", func(c *Ctx, r string) { checkMountKeepsBundleID(c, r) }},
+	{"reader-built-per-call", func(c *Ctx, r string) { checkReaderBuiltPerCall(c, r) }},
+	{"wal-entries-only-without-error", func(c *Ctx, r string) { checkWALEntriesOnlyWithoutError(c, r) }},
+	{"purge-option-setters-own-field", func(c *Ctx, r string) { checkPurgeOptionSettersOwnField(c, r) }},
 	{"writer-buf-leaf-sized", func(c *Ctx, r string) { checkWriterBufIsLeafSized(c, r) }},
 	{"glob-cache-writers", func(c *Ctx, r string) { checkGlobCacheWriters(c, r) }},
 	{"nothing-deleted-after-repo-descriptor", func(c *Ctx, r string) { checkNothingDeletedAfterRepoDescriptor(c, r) }},
